@@ -16,6 +16,8 @@ def pat(seed, n):
 
 def make_case(kind, toks):
     t = [int(x) for x in toks]
+    if kind in ("c09wc", "c09rc"):
+        return Case(kind, toks, (kind,) + tuple(t))
     if kind == "c09r":
         a, n, rid, cap = t
         d = ("r", a, n)
@@ -57,7 +59,55 @@ def expected(d):
     return scd, 0x0808, [16, 12 + 4 * len(es)]
 
 
+def pred_chunks(c, out):
+    """Every command produced by WriteMem::chunks / ReadMem::chunks is a command of C09 too: its serialization is the
+    U3V layout of the chunk it stands for, cmd_len and the SCD-length field are its true lengths."""
+    kind, a, n, seed, rid, budget = c.meta
+    if out is None:
+        return "no output"
+    if out == [2]:
+        return "panic"
+    hdr = 20 if kind == "c09wc" else 12
+    if kind == "c09wc" and n + 8 > 65535:
+        return None if out == [1, 10] else "a write whose length does not fit the 16-bit field must be refused at construction"
+    if budget <= hdr:
+        return None if out[0] == 1 else "a budget that carries no payload must be refused"
+    if out[0] != 0:
+        return "chunking refused: %r" % out[:2]
+    per = budget - hdr if kind == "c09wc" else min(budget - 12, 65535)
+    data = pat(seed, n)
+    i, off, k = 1, 0, 0
+    while i < len(out):
+        ln = out[i]
+        one = out[i + 1:i + 1 + ln]
+        i += 1 + ln
+        m = min(per, n - off)
+        if m <= 0:
+            return "more chunks than the request needs"
+        if kind == "c09wc":
+            scd, cid, acks = le(a + off, 8) + data[off:off + m], 0x0802, [16]
+        else:
+            scd, cid, acks = le(a + off, 8) + [0, 0] + le(m, 2), 0x0800, [16, 12 + m]
+        full = MAGIC + le(0x4000, 2) + le(cid, 2) + le(len(scd), 2) + le((rid + k) & 0xFFFF, 2) + scd
+        if one[0] != 0:
+            return "chunk %d: not a command" % k
+        cmd_len, max_ack, res, nw = one[1:5]
+        if cmd_len != len(full):
+            return "chunk %d: cmd_len %d != true length %d" % (k, cmd_len, len(full))
+        if res != 0 or nw != len(full) or one[5:] != full:
+            return "chunk %d: serialized bytes / byte count differ from the U3V layout of that chunk" % k
+        if any(x > max_ack for x in acks):
+            return "chunk %d: maximum_ack_len %d below a conforming acknowledge" % (k, max_ack)
+        off += m
+        k += 1
+    if off != n:
+        return "chunks cover %d of %d bytes" % (off, n)
+    return None
+
+
 def predicate(c, out):
+    if c.kind in ("c09wc", "c09rc"):
+        return pred_chunks(c, out)
     d, rid, cap = c.meta
     if out is None:
         return "no output"
@@ -149,6 +199,27 @@ def gen_cases(ck):
         tot = 12 + sum(12 + n for n in lens)
         for cap in ([-1, tot] if len(lens) > 3 or tot > 400 else caps(tot)):
             cases.append(make_case("c09ws", [rng.choice(ids), cap] + es))
+    # entry counts beyond the 16-bit fields: 65535 / 65536 / 65536 + k zero-length entries must be refused
+    for k in ([65535, 65536, 65540, 65536 + 5461] if ck.tier == "quick" else
+              [65535, 65536, 65537, 65540, 65536 + 5460, 65536 + 5461, 65536 + 5462, 131072, 131072 + 3]):
+        es = []
+        for i in range(k):
+            es += [i, 0]
+        cases.append(make_case("c09rs", [7, -1] + es))
+        es[1] = 64
+        es[3] = 8
+        cases.append(make_case("c09rs", [7, -1] + es))
+    # commands produced by chunks(): exact multiples, short last chunks, single commands, request ids across the wrap
+    for budget in (21, 24, 25, 33, 64, 128, 1024, 1500, 65535 + 20):
+        per = budget - 20
+        for n in sorted({0, 1, per - 1, per, per + 1, 2 * per - 1, 2 * per, 2 * per + 1, 3 * per + 2, 130}):
+            if 0 <= n <= 70000 and (n // per) <= 200:
+                cases.append(make_case("c09wc", [0x1000 + n, n, rng.below(256), rng.choice([0, 65534, 65535, 77]), budget]))
+    for budget in (13, 14, 16, 64, 1024, 4096, 65535 + 12, 70000):
+        per = min(budget - 12, 65535)
+        for n in sorted({0, 1, per - 1, per, per + 1, 2 * per + 1, 3 * per, 65535}):
+            if 0 <= n <= 65535 and (n // per) <= 300:
+                cases.append(make_case("c09rc", [0x2000 + n, n, 0, rng.choice([0, 65535, 1234]), budget]))
     nrand = 600 if ck.tier == "quick" else 8000
     for _ in range(nrand):
         kind = rng.choice(["c09r", "c09w", "c09rs", "c09ws"])
@@ -181,7 +252,8 @@ def main():
         "C09", "h_proto", CODES, gen_cases, predicate, nontrivial, make_case=make_case,
         rule="boundary set (addresses 0/2^32/2^63/2^64-1, read lengths, write data sizes around 65527, stacked lists "
              "around 5461 entries and totals around 65535, request ids 0/1/65535, Vec sink and slices of exact / short / "
-             "long capacity) + seeded random commands; each run through the real constructors and serialize() and "
+             "long capacity; stacked lists of 65535 .. 131075 entries; every command produced by WriteMem::chunks / "
+             "ReadMem::chunks for budgets 13 .. 65555 with exact multiples and short last chunks) + seeded random commands; each run through the real constructors and serialize() and "
              "through the extracted Gallina model; predicate = bytes equal an independent Python encoding of the U3V "
              "layout, cmd_len = true length, maximum_ack_len >= every conforming ack, refusal iff lengths do not fit; "
              "non-trivial = constructed command with a non-empty SCD")
